@@ -255,6 +255,29 @@ class Profile:
         raise ValueError(v)
 
     @staticmethod
+    def load_options(profile) -> dict:
+        """
+        Parameters set in the options section of a profile file (or of a shipped
+        profile given by name). Empty if there is no such section or if the profile
+        is an alignment file.
+        """
+        if os.path.exists(profile) and os.path.isfile(profile):
+            if os.path.splitext(profile)[-1] in [".bam", ".sam", ".cram"]:
+                return {}
+            path = profile
+        else:
+            path = script_path(
+                "aldy.resources.profiles/{}.yml".format(profile.lower())
+            )
+            if not os.path.isfile(path):
+                return {}
+        with open(path) as f:
+            prof = yaml.safe_load(f)
+        if not isinstance(prof, dict):
+            return {}
+        return dict(prof.get("options") or {})
+
+    @staticmethod
     def load(gene, profile, cn_region=None, **params):
         """
         Load the copy number profile and parameters from a profile file.
